@@ -161,6 +161,12 @@ def lean_obligations(ctx, modules):
         bad = forbidden_tokens(m)
         ctx.oblige(f"no sorry/admit/axiom/native_decide/bv_decide/unsafe in {m}", not bad, str(bad))
         allok &= not bad
+    if ctx.tier == "thorough":
+        # the toolchain's independent re-checker replays the compiled declarations of each property module
+        for m in modules:
+            rc, outc = sh(["lake", "env", "leanchecker", m], cwd=LEAN, timeout=1800)
+            ctx.oblige(f"leanchecker re-checks {m}", rc == 0, outc)
+            allok &= rc == 0
     return allok
 
 
